@@ -140,7 +140,15 @@ def main(argv=None):
     if d is not None:
         dsum = summarize_D(prop, d, lock)
         if a.update_baseline:
-            lock[prop] = sorted(n for n, st in dsum["by_name"].items() if st == "discharged")
+            new = sorted(n for n, st in dsum["by_name"].items() if st == "discharged")
+            # re-recording must never hide a regression: a name that was discharged on the reference tree and is now generated but not
+            # discharged stays in the lock (and therefore fails) unless the maintainer of the checks drops it on purpose
+            lost = sorted(n for n in lock.get(prop, []) if n in dsum["by_name"] and dsum["by_name"][n] != "discharged")
+            if lost and not os.environ.get("VERIF_BASELINE_DROP"):
+                print(f"BASELINE-REFUSED property={prop}: {len(lost)} previously discharged obligation(s) are no longer discharged, e.g. {lost[:3]}; "
+                      f"fix the regression or set VERIF_BASELINE_DROP=1")
+                return 3
+            lock[prop] = new
             json.dump(lock, open(LOCK, "w"), indent=0, sort_keys=True)
             print(f"baseline for {prop}: {len(lock[prop])} obligation names")
             return 0
